@@ -44,6 +44,7 @@ type lnInvoice struct {
 	external bool // created by the harness's "other node", not by this mint
 	msat     uint64
 	huge     bool
+	expired  bool // created with a validity of 0 seconds
 }
 
 type LnCall struct {
@@ -68,6 +69,8 @@ type ScriptedLN struct {
 	feePct    bool // true: ceil(1%) like LND/CLN; false: 0 like FakeBackend
 	// DefaultAnswer is used for payment / status calls when the script is empty ("" = transport error)
 	DefaultAnswer string
+	// ExpireNext: the next invoice created has a validity of 0 seconds
+	ExpireNext bool
 	Calls     []LnCall
 	subs      map[string][]chan lightning.Invoice
 	// scheduling gate shared with the storage proxy (nil = free running)
@@ -142,7 +145,14 @@ func (l *ScriptedLN) CreateInvoice(amount uint64) (lightning.Invoice, error) {
 		return lightning.Invoice{}, err
 	}
 	l.Calls = append(l.Calls, LnCall{Thread: l.gate.current(), Kind: "CreateInvoice", Hash: li.id, Msat: li.msat, Answer: "ok"})
-	return lightning.Invoice{PaymentRequest: li.request, PaymentHash: li.hash, Amount: amount, Expiry: 3600}, nil
+	// ExpireNext: the invoice's validity is 0 seconds — by the time anybody asks about the quote its expiry has passed
+	// (an invoice can be settled just before it expires and the quote polled / minted afterwards)
+	expiry := uint64(3600)
+	if l.ExpireNext {
+		expiry, l.ExpireNext = 0, false
+		li.expired = true
+	}
+	return lightning.Invoice{PaymentRequest: li.request, PaymentHash: li.hash, Amount: amount, Expiry: expiry}, nil
 }
 
 func (l *ScriptedLN) InvoiceStatus(hash string) (lightning.Invoice, error) {
@@ -160,6 +170,9 @@ func (l *ScriptedLN) InvoiceStatus(hash string) (lightning.Invoice, error) {
 	}
 	ans := "unsettled"
 	inv := lightning.Invoice{PaymentRequest: li.request, PaymentHash: li.hash, Settled: li.settled, Amount: li.amount, Expiry: 3600}
+	if li.expired {
+		inv.Expiry = 0
+	}
 	// the preimage of an own invoice is always known to the backend (used by internal settlement)
 	inv.Preimage = li.preimage
 	if li.settled {
